@@ -48,20 +48,25 @@ buffer contents, `_lincomb_impl` terminates and establishes the specification:
 `out = a*x1 + b*x2` entry-wise from the pre-state, nothing else modified. -/
 theorem C01.lincomb_correct {K : Type} [CommRing K] [DecidableEq K]
     (size : Nat) (blasOk : Bool) (A : Args) (a b : K) (m : Mem K) :
-    ∃ m', lincombImpl thrSmall thrMedium fbGuard prog size blasOk A a b m = some m' ∧
+    ∃ m', lincombImpl thrSmall thrMedium fbGuard zeroGuard prog size blasOk A a b m = some m' ∧
       Spec A a b m m' := by
   unfold lincombImpl
-  cases regime thrSmall thrMedium size blasOk
-  · refine ⟨_, rfl, ?_, ?_⟩
-    · intro i; simp [direct, Mem.write]
-    · intro buf h; simp [direct, Mem.write, h]
-  · exact C01.dispatch_correct _ A a b m
-  · exact C01.dispatch_correct _ A a b m
+  split_ifs with hz
+  · simp only [Bool.and_eq_true, decide_eq_true_eq] at hz
+    refine ⟨_, rfl, ?_, ?_⟩
+    · intro i; simp [Mem.write, hz.1.2, hz.2]
+    · intro buf h; simp [Mem.write, h]
+  · cases regime thrSmall thrMedium size blasOk
+    · refine ⟨_, rfl, ?_, ?_⟩
+      · intro i; simp [direct, Mem.write]
+      · intro buf h; simp [direct, Mem.write, h]
+    · exact C01.dispatch_correct _ A a b m
+    · exact C01.dispatch_correct _ A a b m
 
 /-- Operands that are not the output are never modified. -/
 theorem C01.lincomb_frame {K : Type} [CommRing K] [DecidableEq K]
     (size : Nat) (blasOk : Bool) (A : Args) (a b : K) (m m' : Mem K)
-    (h : lincombImpl thrSmall thrMedium fbGuard prog size blasOk A a b m = some m') :
+    (h : lincombImpl thrSmall thrMedium fbGuard zeroGuard prog size blasOk A a b m = some m') :
     (A.x1 ≠ A.out → m' A.x1 = m A.x1) ∧ (A.x2 ≠ A.out → m' A.x2 = m A.x2) := by
   obtain ⟨m'', h1, _, h3⟩ := C01.lincomb_correct size blasOk A a b m
   rw [h] at h1; cases h1
@@ -72,8 +77,8 @@ pre-states that agree on the operand buffers give the same output. -/
 theorem C01.lincomb_out_independent {K : Type} [CommRing K] [DecidableEq K]
     (size : Nat) (blasOk : Bool) (A : Args) (a b : K) (m₁ m₂ m₁' m₂' : Mem K)
     (hx1 : m₁ A.x1 = m₂ A.x1) (hx2 : m₁ A.x2 = m₂ A.x2)
-    (h₁ : lincombImpl thrSmall thrMedium fbGuard prog size blasOk A a b m₁ = some m₁')
-    (h₂ : lincombImpl thrSmall thrMedium fbGuard prog size blasOk A a b m₂ = some m₂') :
+    (h₁ : lincombImpl thrSmall thrMedium fbGuard zeroGuard prog size blasOk A a b m₁ = some m₁')
+    (h₂ : lincombImpl thrSmall thrMedium fbGuard zeroGuard prog size blasOk A a b m₂ = some m₂') :
     m₁' A.out = m₂' A.out := by
   obtain ⟨n₁, e₁, s₁, _⟩ := C01.lincomb_correct size blasOk A a b m₁
   obtain ⟨n₂, e₂, s₂, _⟩ := C01.lincomb_correct size blasOk A a b m₂
@@ -90,7 +95,7 @@ theorem C01.regimes_reachable :
   decide
 
 /-- Non-vacuity: a concrete fully aliased integer state in the fallback regime. -/
-example : ∃ m', lincombImpl thrSmall thrMedium fbGuard prog 100 false ⟨0, 0, 0⟩ (2 : Int) (-2)
+example : ∃ m', lincombImpl thrSmall thrMedium fbGuard zeroGuard prog 100 false ⟨0, 0, 0⟩ (2 : Int) (-2)
     (fun _ i => (i : Int)) = some m' ∧ m' 0 5 = 0 := by
   obtain ⟨m', h, s, _⟩ := C01.lincomb_correct (K := Int) 100 false ⟨0, 0, 0⟩ 2 (-2) (fun _ i => (i : Int))
   exact ⟨m', h, by rw [s]; simp⟩
@@ -99,7 +104,7 @@ example : ∃ m', lincombImpl thrSmall thrMedium fbGuard prog 100 false ⟨0, 0,
 
 /-- The tensor-space `_lincomb` (extracted program, any size/regime) satisfies `LCSpec`. -/
 theorem C01.tensor_lincomb_spec {K : Type} [CommRing K] [DecidableEq K] (size : Nat) (blasOk : Bool) :
-    LCSpec (K := K) (fun A a b m => lincombImpl thrSmall thrMedium fbGuard prog size blasOk A a b m) :=
+    LCSpec (K := K) (fun A a b m => lincombImpl thrSmall thrMedium fbGuard zeroGuard prog size blasOk A a b m) :=
   fun A a b m => C01.lincomb_correct size blasOk A a b m
 
 section
@@ -301,7 +306,7 @@ end
 
 /-- Non-vacuity of the element layer: `x **= 5` on a concrete rational buffer, through the
 extracted tensor `_lincomb`. -/
-example : ∃ m', ipow (K := Rat) (fun A a b m => lincombImpl thrSmall thrMedium fbGuard prog 3 false A a b m)
+example : ∃ m', ipow (K := Rat) (fun A a b m => lincombImpl thrSmall thrMedium fbGuard zeroGuard prog 3 false A a b m)
     0 1 5 (fun _ i => (i : Rat) + 2) = some m' ∧ m' 0 1 = 243 := by
   obtain ⟨m', e, s, _⟩ := C01.ipow_correct (K := Rat) _ (C01.tensor_lincomb_spec 3 false) 0 1 (by decide) 5
     (fun _ i => (i : Rat) + 2)
